@@ -77,6 +77,9 @@ def _fold_int(op: ast.operator, a: str, b: str) -> typing.Optional[str]:
             return None
         return None
     m = _LIN.fullmatch(a.strip())
+    m2 = _LIN.fullmatch(b.strip())
+    if m and m2 and isinstance(op, ast.Sub) and m.group(1) == m2.group(1) and m.group(2) == m2.group(2):
+        return _lit_term(int(m.group(3)) - int(m2.group(3)))  # two positions relative to the same symbolic base
     if m and y is not None:
         c, X, k = int(m.group(1)), m.group(2), int(m.group(3))
         if isinstance(op, ast.Add) and k + y >= 0:
@@ -970,6 +973,13 @@ class Interp:
         if isinstance(s.value, ast.Constant):
             return  # docstring
         self.eval(s.value)
+
+    def s_Delete(self, s: ast.Delete) -> None:
+        for t in s.targets:
+            if isinstance(t, ast.Name):
+                self.ctx.env.pop(t.id, None)
+            else:
+                raise OutOfSubset("del of a non-name")
 
     def s_Pass(self, s: ast.Pass) -> None:
         pass
